@@ -539,24 +539,31 @@ def _run_fault(inp):
         for p in patches:
             p.start()
         exc = None
+        # the caller holds the tree lock around commit() (as cmd_commit does), so that the final unlock --
+        # which aborts a leftover write group as a safety net -- does not hide a missing builder.abort()
+        wt.lock_write()
         try:
-            if "message_callback" in kw:
-                wt.commit(rev_id=b"r2", **kw)
-            else:
-                wt.commit("two", rev_id=b"r2", **kw)
-        except (_Boom, errors.TipChangeRejected, PointlessCommit) as e:
-            exc = type(e).__name__
+            try:
+                if "message_callback" in kw:
+                    wt.commit(rev_id=b"r2", **kw)
+                else:
+                    wt.commit("two", rev_id=b"r2", **kw)
+            except (_Boom, errors.TipChangeRejected, PointlessCommit) as e:
+                exc = type(e).__name__
+            finally:
+                for p in patches:
+                    p.stop()
+                for hn, fn in hooks:
+                    Branch.hooks.uninstall_named_hook(hn, "verif-c01")
+                hooks = []
+            wg_inside = bool(wt.branch.repository.is_in_write_group())
         finally:
-            for p in patches:
-                p.stop()
-            for hn, fn in hooks:
-                Branch.hooks.uninstall_named_hook(hn, "verif-c01")
-            hooks = []
+            wt.unlock()
         repo = wt.branch.repository
         mb = Branch.open(mwt.branch.base)
         model_part = [exc is not None, bool(repo.has_revision(b"r2")), wt.branch.last_revision() == b"r2",
                       bound and mb.last_revision() == b"r2", wt.last_revision() == b"r2",
-                      bool(repo.is_in_write_group())]
+                      wg_inside or bool(repo.is_in_write_group())]
         # a later plain commit must still work (no leaked write group / lock)
         try:
             with wt.lock_tree_write():
